@@ -78,6 +78,7 @@ def build(tier, seed):
     tasks = [Task(f"{PROP}.S.instance_state", PROP, "reader / parser classes", lambda: __import__("contracts.plumbing", fromlist=["x"]).no_shared_mutable_state(PROP, replay=lambda: __import__("bounded.c20", fromlist=["x"]).leak_cases())),
              Task(f"{PROP}.S.preprocessor_exit", PROP, "FortranReader.__init__", lambda: containment.preprocessor_exit_obligations(PROP)),
              Task(f"{PROP}.S.default_not_shared", PROP, "mutable default arguments", lambda: __import__("contracts.plumbing", fromlist=["x"]).mutable_defaults_not_shared(PROP, ("ford.sourceform", "ford.reader", "ford.fortran_project"), lambda: __import__("bounded.c20", fromlist=["x"]).leak_cases())),
+             Task(f"{PROP}.S.diagnostics_allocate_nothing", PROP, "FortranContainer.print_error", lambda: containment.diagnostics_allocate_nothing(PROP, lambda: __import__("bounded.c20", fromlist=["x"]).name_allocation_case())),
              Task(f"{PROP}.S.reader_progress", PROP, "FortranReader.__next__", lambda: containment.reader_progress_obligation(PROP, lambda: __import__("bounded.c20", fromlist=["x"]).search())),
              __import__("contracts.C15", fromlist=["x"]).argparse_task(PROP, only=("debug", "d", "force", "quiet", "q"), replay=lambda: __import__("bounded.c20", fromlist=["x"]).command_line_run()),
              Task(f"{PROP}.S.containment", PROP, "exception containment", _replay(containment.obligations)),
